@@ -52,6 +52,26 @@ package caskettls
 //@   loop 2 invariant 0 <= #i && #i <= len(c1.CurvePreferences) && forall(k, 0, #i, c1.CurvePreferences[k] == c2.CurvePreferences[k])
 //@   loop 3 invariant 0 <= #i && #i <= len(c1.NextProtos) && forall(k, 0, #i, c1.NextProtos[k] == c2.NextProtos[k])
 
+//@ unit build_tls_config props=C06 filter=`caskettls\.Config\)\.buildStandardTLSConfig$`
+//@ // The tls.Config a handshake is governed by carries the site's own protocol range, client-certificate policy and CA
+//@ // pool (a pool is built for EVERY policy other than "no client cert": request, require, verify-if-given,
+//@ // require-and-verify), server cipher preference, and TLS_FALLBACK_SCSV first in the cipher list.
+//@ extern crypto/x509.NewCertPool
+//@   ensures result != nil
+//@ extern (*crypto/x509.CertPool).AppendCertsFromPEM
+//@ extern io/ioutil.ReadFile
+//@ extern fmt.Errorf
+//@   ensures result != nil
+//@ func getPreferredDefaultCiphers
+//@ define tc() *tls.Config = c.tlsConfig
+//@ func (*Config).buildStandardTLSConfig
+//@   requires c != nil && c.Manager != nil
+//@   ensures [disabled_builds_nothing] !old(c.Enabled) ==> (result == nil && c.tlsConfig == old(c.tlsConfig))
+//@   ensures [own_version_range_and_policy] (result == nil && c.Enabled) ==> (tc() != nil && tc().MinVersion == c.ProtocolMinVersion && tc().MaxVersion == c.ProtocolMaxVersion && tc().ClientAuth == c.ClientAuth && tc().PreferServerCipherSuites == c.PreferServerCipherSuites)
+//@   ensures [client_ca_pool_for_every_client_auth_mode] (result == nil && c.Enabled && c.ClientAuth != 0) ==> tc().ClientCAs != nil
+//@   ensures [no_pool_without_client_auth] (result == nil && c.Enabled && c.ClientAuth == 0) ==> tc().ClientCAs == nil
+//@   ensures [fallback_scsv_first] (result == nil && c.Enabled) ==> (len(tc().CipherSuites) >= 1 && tc().CipherSuites[0] == 22016)
+
 //@ unit qualifies frames=on props=C15 filter=`caskettls\.QualifiesForManagedTLS$`
 //@ extern invoke:(github.com/tmpim/casket/caskettls.ConfigHolder).TLSConfig
 //@   pure
